@@ -1,5 +1,6 @@
 """Serialisation of curtsies values into the homogeneous encoding the TLA+ modules use, and the
 ECMA-48 lexer that cuts terminal output into tokens.  Raw snapshots only - no interpretation."""
+import json
 
 COLORS = ("black", "red", "green", "yellow", "blue", "magenta", "cyan", "gray")
 STYLE_ORDER = ("bold", "dark", "italic", "underline", "blink", "invert")
@@ -58,7 +59,8 @@ def enc_value(x):
     return {"k": "f", "v": enc_fmtstr(x)}
 
 
-WARM = 0   # bit mask: the operands built next are looked at first (1 .s, 2 str(), 4 .width, 8 len() / hash / width_at_offset)
+WARM = 0   # bit mask: the operands built next are looked at first (1 .s, 2 str(), 4 .width, 8 len() / hash / width_at_offset);
+           # 16: equal runs of a value are one shared Chunk object (as f + f, f * n, join build them)
 
 
 def warm(f, mask):
@@ -87,7 +89,11 @@ def build_fmtstr(runs):
     """runs -> real FmtStr built from Chunks (used by enumerations; the public constructors are
     exercised separately by C14/C01 spellings)."""
     from curtsies.formatstring import FmtStr, Chunk
-    f = FmtStr(*(Chunk(dec_text(t), dec_atts(a)) for t, a in runs))
+    if WARM & 16:
+        made = {}
+        f = FmtStr(*(made.setdefault(json.dumps([t, a]), Chunk(dec_text(t), dec_atts(a))) for t, a in runs))
+    else:
+        f = FmtStr(*(Chunk(dec_text(t), dec_atts(a)) for t, a in runs))
     return warm(f, WARM) if WARM else f
 
 
